@@ -98,3 +98,22 @@ Proof.
        | |- context [if ?c then _ else _] => let E := fresh "E" in destruct c eqn:E
        end; try lia; f_equal; f_equal; lia.
 Qed.
+
+(* the lower bound d makes the field behave as the VIRTUAL list real[d:] of length len-d, results shifted back by d
+   (this is what `_body` = body-without-docstring relies on) *)
+Definition shift2 (d : Z) (p : Z * Z) : Z * Z := (fst p + d, snd p + d).
+
+Lemma fix_slice_start_at_virtual len a b d : 0 <= d <= len ->
+  fixup_slice_indices len a b d = option_map (shift2 d) (fixup_slice_indices (len - d) a b 0).
+Proof.
+  intros Hd. unfold fixup_slice_indices, shift2.
+  destruct a as [|a]; destruct b as [|b]; cbv zeta.
+  all: split_ifs; cbn [option_map fst snd]; try reflexivity; try (exfalso; lia); try (f_equal; f_equal; lia).
+Qed.
+
+Lemma fix_one_start_at_virtual len i d : 0 <= d <= len ->
+  fixup_one_index len (Ix i) d = option_map (fun k => k + d) (fixup_one_index (len - d) (Ix i) 0).
+Proof.
+  intros Hd. unfold fixup_one_index.
+  split_ifs; cbn [option_map]; try reflexivity; try (exfalso; lia); try (f_equal; lia).
+Qed.
